@@ -32,7 +32,7 @@ THEOREM_MODULE = "NemoVerif.Theorems.C19"
 RULE = ("fn: 1-4 sequential calls of the decorated _get_embeddings with 0-7 texts from a 9-symbol alphabet (duplicates, '', unicode), "
         "cache in {off, in_memory, filesystem(tmp dir), harness-registered shared store} x key generator in {md5, hash, harness-registered hex}, "
         "store pre-populated with a random subset. sched: 1-40 concurrent requests (search() with a stub index) + 0-3 direct _get_embeddings "
-        "calls, batch size 1-8, hold in {0.5,1.5,3,10} ticks, arrival ticks clustered/spread, per-call model latency from {no await, 0, 0.3, 0.7, 2.2, 5}, "
+        "calls, batch size 1-8, hold in {0.5,1,1.5,2,3,10} ticks (integer holds coincide with integer arrival ticks), arrival ticks clustered/spread, per-call model latency from {no await, 0, 0.3, 0.7, 2.2, 5}, "
         "virtual-time loop; thorough adds ALL non-decreasing arrival vectors over {0..3} of <=4 requests x batch size <=3 x text partitions x 6 (hold, latency) pairs x 2 caches. "
         "non-trivial: fn = cache enabled and a call mixes hits and misses or has duplicates; sched = some batch carried >=2 requests, or a request "
         "had to wait for `submitted`, or two in-flight batches overlapped.")
@@ -50,7 +50,7 @@ EXHAUSTIVE = {"quick": False, "thorough": True}
 
 ALPHABET = ["a", "b", "", "c", "hello world", "é∑", "a ", "B", "long " * 6]
 LAT = [None, 0, 0.3, 0.7, 2.2, 5.0]
-HOLD = [0.5, 1.5, 3.0, 10.0]
+HOLD = [0.5, 1.0, 1.5, 2.0, 3.0, 10.0]
 
 _REC = None  # current recorder (None = not recording)
 _SETUP = False
@@ -828,9 +828,9 @@ def g_exhaustive():
 
 def gen_cases(rng, tier):
     if tier == "quick":
-        nfn, nsch, nbig = 20000, 260, 40
+        nfn, nsch, nbig = 20000, 1200, 100
     else:
-        nfn, nsch, nbig = 300000, 8500, 1500
+        nfn, nsch, nbig = 200000, 8500, 1500
     cases = [g_fn(rng) for _ in range(nfn)]
     cases += [g_sched(rng) for _ in range(nsch)]
     cases += [g_sched(rng, big=True) for _ in range(nbig)]
